@@ -42,10 +42,15 @@ class ShimNP:
         x = np.asarray(x, dtype=object)
         return x.sum() * self._sp.const(Fraction(1, x.size))
 
-    def var(self, x):
+    def var(self, x, ddof=0, **kw):
+        if kw:
+            raise Unsupported(f"np.var keyword {sorted(kw)} is not modelled")
         x = np.asarray(x, dtype=object)
         m = self.mean(x)
-        return ((x - m) * (x - m)).sum() * self._sp.const(Fraction(1, x.size))
+        return ((x - m) * (x - m)).sum() * self._sp.const(Fraction(1, x.size - int(ddof)))
+
+    def std(self, x, ddof=0, **kw):
+        return self.sqrt(self.var(x, ddof=ddof, **kw))
 
 
 def _load(fname, sp, extra=None):
@@ -247,6 +252,20 @@ def jackknife(n=5):
         out.append(H.identity(f"C19.jk.sigma2[n={n}]", sigma.arg, s2, kind="bounded", functions=fns, inputs=inp, t0=t0, note="sigma^2 = (n-1)/n sum (J_i - Jbar)^2"))
     else:
         out.append(ob(f"C19.jk.sigma2[n={n}]", UNDECIDED, kind="bounded", detail="sigma is not a square root expression"))
+    if any(o["status"] == REFUTED for o in out):
+        # native replay: the real function on the numeric point of the symbols against the brute-force leave-one-out definition
+        from contracts import native
+        native.setup()
+        from ad_afqmc import stat_utils
+        ax, bx = np.asarray(hn["V"].x, dtype=float), np.asarray(hd["V"].x, dtype=float)
+        m_nat, s_nat = stat_utils.jackknife_ratios(ax, bx)
+        Jx = np.array([np.delete(ax, i).mean() / np.delete(bx, i).mean() for i in range(n)])
+        m_ref, s_ref = Jx.mean(), np.sqrt((n - 1) / n * ((Jx - Jx.mean()) ** 2).sum())
+        for o in out:
+            if o["status"] == REFUTED:
+                got, want = (m_nat, m_ref) if ".mean" in o["name"] else (s_nat, s_ref)
+                o["replayed"] = bool(abs(got - want) > 1e-9 * (1 + abs(want)))
+                o["witness"] = dict(o.get("witness") or {}, native=dict(num_samples=ax.tolist(), denom_samples=bx.tolist(), got=float(got), brute_force=float(want)))
     return out
 
 
